@@ -42,6 +42,9 @@ def tasks(tier, seed):
     for k in range(16):
         ts.append(Task('bounded_scores[%d]' % k, MOD, 'task_bounded_scores', (seed, k, n), backend='bounded',
                        fuc=['segno.encoder.mask_scores'], weight=50))
+    for k in range(16):
+        ts.append(Task('bounded_selection[%d]' % k, MOD, 'task_bounded_selection', (seed, k, 10 if tier == 'quick' else 80), backend='bounded',
+                       fuc=['segno.make', 'segno.encoder.find_and_apply_best_mask', 'segno.encoder._encode'], weight=40))
     # the requested mask reaches every symbol of a sequence (multi-symbol and single-symbol route of encode_sequence)
     ts.append(Task('sequence_options', 'contracts.c08', 'task_sequence_structure', ('alphanumeric', 'C06', True), fuc=['segno.encoder.encode_sequence'], weight=30))
     from . import glue, api
@@ -440,3 +443,31 @@ def _n3_greedy(rows):
             p += 1
         return s
     return sum(line(list(rows[i])) + line([rows[r][i] for r in range(size)]) for i in range(size))
+
+
+def task_bounded_selection(I, seed, k, n):
+    """BOUNDED (labelled): end to end on real symbols made with automatic masking - the pattern found in the symbol is the ISO choice
+    (lowest-numbered minimum of N1+N2+N3+N4 over the eight candidates with format and version areas light; Micro QR: maximal edge score)"""
+    import random
+    from spec import replays
+    rnd = random.Random(seed * 3571 + k)
+    versions = [iso.M2, iso.M3, iso.M4, 1, 2, 3, 5, 6, 7, 8, 9, 10, 11, 14, 18, 21]
+    done = 0
+    for t in range(n):
+        v = versions[(k + t) % len(versions)]
+        alphabet = 'ABCDEFGHIJKLMNOPQRSTUVWXYZ0123456789 $%*+-./:' if rnd.random() < 0.7 else 'abcdefghijklmnopqrstuvwxyz'
+        content = ''.join(rnd.choice(alphabet) for _ in range(rnd.randrange(1, 9)))
+        kw = dict(version=iso.version_name(v))
+        if rnd.random() < 0.3 and v >= 1:
+            kw['error'] = rnd.choice('LMQH')
+        try:
+            probs = replays.selection_problems(content, kw)
+        except ValueError:
+            continue
+        done += 1
+        if probs:
+            I.ground('C06.bounded.automatic_mask_of_real_symbols_is_the_ISO_choice', False, witness=dict(problem=probs[0]), kind='bounded',
+                     replay=dict(fn='replay_selection_end_to_end'))
+        else:
+            I.ground_pass('C06.bounded.automatic_mask_of_real_symbols_is_the_ISO_choice', 1, kind='bounded')
+    I.samples = [dict(bounded='automatic mask of real symbols', symbols=done)]
